@@ -23,6 +23,15 @@ def run(tier, seed):
     ck.add_mc(gen, "Gen_JsonGrammar")
     if gen.vectors == 0:
         raise vlib.Infra("generator emitted no vectors")
+    # 2b. string literals in depth: the literal units of spec/JsonString.tla (escapes by class of code point, surrogates and what
+    # may follow them, broken escapes) with the verdict WellFormed
+    with open(vec, "a") as sink:
+        g2 = vlib.must_hold(vlib.tlc("JsonString", "Gen_JsonStringUnesc.cfg", workers=8, sink=sink, tag="JsonString-c05-2"), "literal units (2)")
+        sub = '{"a","x","e_c","e_bad","u_asc","u_hi","u_lo","u_short","u_nonhex","ctlraw"}' if not thorough else "{}"
+        g3 = vlib.must_hold(vlib.tlc("JsonString", "Gen_JsonStringUnesc.cfg", workers=8, sink=sink, tag="JsonString-c05-3",
+                                     defines={"MaxUnits": 3, "UnescUnits": sub}, timeout=3000), "literal units (3)")
+    ck.add_mc(g2, "Gen_JsonStringUnesc(2 units)")
+    ck.add_mc(g3, "Gen_JsonStringUnesc(3 units)")
     # 3. replay every behaviour through every syntax-only consumer of the real package
     ck.binary = vlib.build_harness()
     rr = vlib.run_harness(ck.binary, PROP, vec, seed=seed, tier=tier, shards=8 if thorough else 4, timeout=3000)
@@ -34,7 +43,9 @@ def run(tier, seed):
                "(one vector each: verdict, killing classes, completion, 4 wrapped verdicts); each is lifted to bytes "
                "(canonical, seeded representatives, string bodies stretched past the 8/16-byte scans), every killing "
                "class is appended with every representative byte; distinct_nontrivial = number of distinct prefixes "
-               "(spec states) replayed; evaluations = consumer calls compared with the spec verdict")
+               "(spec states) replayed; evaluations = consumer calls compared with the spec verdict; plus the literal-unit sequences of "
+               "spec/JsonString.tla (37 unit classes: raw bytes, simple escapes, \\uXXXX by class of code point incl. surrogates, four broken "
+               "forms) as a document, element, member value and member name with the verdict WellFormed")
     ck.assumptions = ["encoding/json.Valid is cross-checked against the specification on every document (a disagreement aborts with exit 2)",
                       "bytes of one class behave alike up to the representatives listed in harness/c05.go"]
     return ck.finish()
